@@ -20,15 +20,19 @@ def setup(seed):
     with build.Lock():
         build.snapshot()
         ws = build.Workspace("quick", seed)
-        groups = sorted({g for v in props.RUNTIME.values() for g in v[0] if g in build.catalog.FAMILIES})
+        groups = sorted({g for v in props.RUNTIME.values() for g in v[0] if g in build.catalog.FAMILIES}) + ["constf"]
         ws.generate(groups)
         for prof in props.tier_profiles("quick"):
             ws.build_resilient(groups, prof)
+        from . import compile_mon
+        compile_mon.artifacts("macrodev")
+        cprops.build_expmon()
     print("setup done")
     return 0
 
 
 def replay(prop, path):
+    replay_path = path
     with open(path) as f:
         rec = json.load(f)
     if rec.get("replay_kind") == "runtime":
@@ -44,6 +48,57 @@ def replay(prop, path):
         for v in vs[:5]:
             print(json.dumps(v, indent=1))
         if vs:
+            print("VIOLATION property=%s replay=%s" % (prop, path))
+            return 1
+        return 0
+    if rec.get("replay_kind") == "compile":
+        from . import compile_mon as cm
+        import os
+        with build.Lock():
+            build.snapshot()
+            art = cm.artifacts(rec.get("macro_profile", "macrodev"))
+            d = os.path.join(cm.CM, "replay")
+            os.makedirs(d, exist_ok=True)
+            header = cprops.NO_STD_HEADER if rec.get("header") == "no_std" else cm.HEADER
+            prog = rec["program"]
+            if rec.get("header") == "no_std":
+                prog = prog.split("\n", 4)[-1] if prog.startswith("#![no_std]") else prog
+            path = os.path.join(d, "replay.rs")
+            build.write_if_changed(path, "\n".join(header) + "\n" + prog + "\n")
+            diags = cm.rustc_batch(path, art, d)
+        print("recompiled the recorded program: %d error(s)" % len(diags))
+        for m in diags[:3]:
+            print("  ", (m.get("code") or {}).get("code"), m.get("message", "")[:200])
+        violated = bool(diags) if rec.get("expect") == "accept" else not diags
+        print("expected: %s" % ("compiles" if rec.get("expect") == "accept" else "compile error"))
+        if violated:
+            print("VIOLATION property=%s replay=%s" % (prop, replay_path))
+            return 1
+        return 0
+    if rec.get("replay_kind") == "dump-scan":
+        import os
+        import subprocess
+        expmon = cprops.build_expmon()
+        d = os.path.join(build.OUT, "cm", "replay-dump")
+        os.makedirs(d, exist_ok=True)
+        for f in os.listdir(d):
+            os.remove(os.path.join(d, f))
+        with open(os.path.join(d, "replay.rs"), "w") as f:
+            f.write(rec["program"])
+        out = subprocess.run([expmon, d], stdout=subprocess.PIPE).stdout.decode()
+        print(out[:2000])
+        r = json.loads(out.splitlines()[0])
+        if r.get("unsafe") or any(h not in cprops.ALLOWED_HEADS for h in r.get("heads", {}) if h in ("std", "alloc")):
+            print("VIOLATION property=%s replay=%s" % (prop, path))
+            return 1
+        return 0
+    if rec.get("replay_kind") == "const-harness":
+        res = cprops.check_c15(rec["tier"], rec["seed"])
+        hits = [r for _, r in res.violations if r.get("case") == rec["case"]]
+        print("re-ran the const harness: %d violation(s) for case %s" % (len(hits), rec["case"]))
+        for h in hits[:3]:
+            print(json.dumps({k: h.get(k) for k in ("kind", "what", "observed", "expected")}))
+        if hits:
             print("VIOLATION property=%s replay=%s" % (prop, path))
             return 1
         return 0
